@@ -335,3 +335,92 @@ func runC18_4(c *Ctx) {
 	})
 	c.Check(okQ && retGE, "qpsLimiter.take admits only with a token", p.Pos(qt.Pos()), "tokens <= 0 => refuse; admit iff post-decrement >= 0 ("+got+")", "qpsLimiter.take no longer admits only when a token is available (tokens > 0 and post-decrement >= 0): the bucket can be overdrawn")
 }
+
+func init() {
+	register(&Rule{ID: "C18.5", Prop: "C18", Min: 2,
+		Text: "limit updates keep the accounting: a limiter object is created only when none exists (newConnLimiter / newQPSLimiter stored only on the `== nil` edge); a changed limit is applied to the existing limiter (update), so live sessions and consumed tokens stay counted",
+		Run:  runC18_5})
+	register(&Rule{ID: "C18.6", Prop: "C18", Min: 1,
+		Text: "one refill ticker per limiter: when the interval changes, qpsLimiter.update stops the old ticker before installing the new one and starts exactly one refill goroutine after installing it",
+		Run:  runC18_6})
+}
+
+func runC18_5(c *Ctx) {
+	p := c.P
+	olN := p.Named(olPkg, "Overloader")
+	for _, s := range []struct{ fn, field, ctor, upd string }{
+		{"updateConnLimiter", "connLimiter", "newConnLimiter", "update"},
+		{"updateTotalQPSLimiter", "totalQPSLimiter", "newQPSLimiter", "update"},
+	} {
+		fn := p.Fn(olPkg, "Overloader", s.fn)
+		_, fIdx := p.FieldIndex(olPkg, "Overloader", s.field)
+		ctor := p.FuncObj(olPkg, s.ctor)
+		okAll, n := true, 0
+		Instrs(fn, func(i ssa.Instruction) {
+			st, ok := i.(*ssa.Store)
+			if !ok || !isFieldAddr(st.Addr, olN, fIdx) {
+				return
+			}
+			call, ok := st.Val.(*ssa.Call)
+			if !ok || CalleeObj(call) != ctor {
+				return
+			}
+			n++
+			dom := false
+			for _, b := range fn.Blocks {
+				ifi, isIf := b.Instrs[len(b.Instrs)-1].(*ssa.If)
+				if !isIf {
+					continue
+				}
+				// the condition must be exactly `field == nil` (not a disjunction block that other conditions also reach)
+				bo, isB := ifi.Cond.(*ssa.BinOp)
+				if !isB || bo.Op != token.EQL || !isFieldLoad(bo.X, olN, fIdx) || !IsNilConst(bo.Y) {
+					continue
+				}
+				if BlockDominatesInstr(b.Succs[0], st) {
+					dom = true
+				}
+			}
+			if !dom {
+				okAll = false
+			}
+		})
+		// a changed limit goes through the existing limiter's update()
+		var updM = p.MethodObj(olPkg, map[string]string{"connLimiter": "connLimiter", "totalQPSLimiter": "qpsLimiter"}[s.field], s.upd)
+		hasUpd := len(CallsTo(fn, updM)) > 0
+		c.fact("dominance")
+		c.Check(okAll && n >= 1 && hasUpd, "Overloader."+s.fn+" creates a limiter only when none exists", p.Pos(fn.Pos()), s.ctor+" only on the nil edge; changed limits use "+s.upd+"()", "Overloader."+s.fn+" replaces an existing limiter by a fresh one (or never updates the existing one) when the configuration changes: its counters restart from zero while sessions/tokens of the old one are still out - more than the limit is admitted, and later releases drive the new counters negative")
+	}
+}
+
+func runC18_6(c *Ctx) {
+	p := c.P
+	fn := p.Fn(olPkg, "qpsLimiter", "update")
+	qN, tIdx := p.FieldIndex(olPkg, "qpsLimiter", "ticker")
+	stop := p.MethodObj(olPkg, "qpsLimiter", "stopTicker")
+	start := p.MethodObj(olPkg, "qpsLimiter", "startTicker")
+	var store ssa.Instruction
+	Instrs(fn, func(i ssa.Instruction) {
+		if st, ok := i.(*ssa.Store); ok && isFieldAddr(st.Addr, qN, tIdx) {
+			store = i
+		}
+	})
+	stops := CallsTo(fn, stop)
+	var gos []ssa.Instruction
+	Instrs(fn, func(i ssa.Instruction) {
+		if g, ok := i.(*ssa.Go); ok && CalleeObj(g) == start {
+			gos = append(gos, i)
+		}
+	})
+	ok := store != nil && len(stops) == 1 && len(gos) == 1 && Dominates(stops[0], store) && Dominates(store, gos[0])
+	// stopTicker stops the limiter's current ticker
+	st := p.Fn(olPkg, "qpsLimiter", "stopTicker")
+	stopsOwn := false
+	for _, call := range AllCalls(st) {
+		if o := CalleeObj(call); o != nil && o.FullName() == "(*time.Ticker).Stop" && isFieldLoad(call.Common().Args[0], qN, tIdx) {
+			stopsOwn = true
+		}
+	}
+	c.fact("dominance")
+	c.Check(ok && stopsOwn, "qpsLimiter.update swaps tickers in order", p.Pos(fn.Pos()), "stopTicker() -> q.ticker = NewTicker -> go startTicker()", "qpsLimiter.update does not stop the old ticker before installing the new one (or starts the refill goroutine before/without it): the old refill goroutine keeps adding tokens at the old interval - the bucket refills far faster than configured")
+}
